@@ -8,5 +8,7 @@ git -C /repo apply "$patch" || { echo "patch does not apply"; exit 2; }
 trap 'git -C /repo checkout -- . ; git -C /repo status --short | grep -v "^??" ' EXIT INT TERM
 ids="$@"
 [ -z "$ids" ] && ids=$(python3 -c "import json;print(' '.join(x['property_id'] for x in json.load(open('MANIFEST.json'))['checks']))")
+# warm the fact cache once (one extraction), then run the checks in parallel
+VERIF_SELFTEST=1 ./check C20 > /dev/null 2>&1
 echo $ids | tr ' ' '\n' | VERIF_SELFTEST=1 xargs -P 8 -I{} sh -c './check {} > .scratch/out_{}.txt 2>&1; echo "{} rc=$?"' | sort
 for i in $ids; do grep -h "^  rule\|ANALYSIS-BROKEN" .scratch/out_$i.txt | cut -c1-260; done
